@@ -1941,7 +1941,11 @@ class TestGraph(object):
         )
         pre_node.results = list(test_node.results)
         pre_node.started_worker = worker
+        # the configuration already counts as a running try of the installation node
+        pending_result = {"name": test_node.params["name"], "status": "UNKNOWN"}
+        test_node.results += [pending_result]
         status = await self.runner.run_test_node(pre_node)
+        test_node.results.remove(pending_result)
         if not status:
             logging.error(
                 "Could not configure the installation for %s on %s",
